@@ -10,7 +10,7 @@ TEXT = {
    text="Generated-input search: every generated log (digest patterns incl. long shared prefixes, any Add/AddBulk split) is built on the real Balloon, and every (event, query version) pair of small logs (boundary+drawn pairs of large ones) must yield an answer that exists, names a true insertion version and verifies (object, JSON wire form, real HTTP client) against the snapshots the log issued; re-checked after every later insertion. Held-on-everything-explored, not a proof.",
    note="Trusts crypto/sha256 and the snapshots returned by the log (tied to the independent reference model by C04). In-process bplus store; RocksDB variant is exercised by C05/C08.", ref="§5 C01"),
  "C02": dict(tech="rapid adversarial-answer grammar over genuine answers; soundness oracle from the generator's ground truth",
-   text="Generated-input search over candidate answers an adversarial server can assemble (0-3 operators over every field and audit-path entry, splices, prefix-sharing digests, honest non-member answers), verified exactly as a client does against authentic snapshots; any accepted false claim is a violation. Exploration of a grammar, not a cryptographic proof.",
+   text="Generated-input search over candidate answers an adversarial server can assemble (0-3 operators over every field and audit-path entry, splices, extra entries carrying the true hash of a node the verifier must compute itself, prefix-sharing digests and near misses of the base event, honest non-member answers), verified exactly as a client does against authentic snapshots and, in a second unit, through the real HTTP client's one-call MembershipAutoVerify against a lying server; any accepted false claim is a violation. Exploration of a grammar, not a cryptographic proof.",
    note="Adversary limited to the operator grammar; SHA-256 collisions out of scope; a verifier panic counts as 'not accepted' here (C12 owns it).", ref="§5 C02"),
  "C03": dict(tech="rapid log histories; exhaustive (i,j) pairs; substitution / fork / alteration families with rejection oracle",
    text="For every generated log and every pair i<=j (all pairs up to the bound) the incremental proof must verify against snapshots i and j and must be rejected under substituted digests (other versions, forked logs sharing any prefix), altered versions and every single audit-path alteration. Exploration.",
@@ -19,49 +19,49 @@ TEXT = {
    text="Every snapshot returned for generated (sequence x partition x restart points x cache capacity) is compared byte-for-byte with an independent re-implementation of the published construction (crypto/sha256 only); same sequence under another partition must give the same digests. Exploration; an independent oracle is what catches changes applied consistently to prover and verifier.",
    note="Hyper inner-node byte order pinned to what the pinned tree publishes (right child first); reference model and QED share only crypto/sha256.", ref="§5 C04, §4.1"),
  "C12": dict(tech="rapid structural mutation of genuine answers + scripted HTTP server + Go native coverage-guided fuzzing with totality oracle",
-   text="Every generated hostile answer (structural malformations over genuine answers; scripted server bodies/status codes against the real client; coverage-guided byte fuzzing in thorough, its corpus replayed in quick) must be decoded and verified without panic, within 5 s and 256 MB. Exploration.",
+   text="Every generated hostile answer (structural malformations over genuine answers; scripted server bodies/status codes against the real client, whose results are then used the way the CLI and the agents use them; coverage-guided byte fuzzing in thorough, its corpus replayed in quick) must be decoded and verified without panic, within 5 s and 256 MB. Exploration.",
    note="The digest the client asks about is its own 32-byte value (caller precondition); hangs are detected with a 5 s bound.", ref="§5 C12"),
  "C13": dict(tech="rapid round-trip (encode/decode) with field equality and verdict-equivalence oracle",
-   text="decode(encode(x)) == x for every genuine membership/incremental answer of generated logs (incl. clamped q>current, audit-path indexes >= 256), synthetic audit paths up to 2^64-1, snapshots/batches, replicated commands/state codecs and gossip messages; decoded proofs must give the original's verdict on genuine and wrong inputs. Exploration.",
+   text="decode(encode(x)) == x for every genuine membership/incremental answer of generated logs (incl. clamped q>current, audit-path indexes >= 256), synthetic audit paths up to 2^64-1, snapshots/batches, replicated commands/state codecs and gossip messages; decoded proofs must give the original's verdict on genuine and wrong inputs; every encoding handed out during a case is held and must be byte-identical at its end. Exploration.",
    note="nil and empty byte slices are identified where the codec conflates them; msgpack/JSON libraries are trusted.", ref="§5 C13"),
  "C14": dict(tech="rapid stateful (model-based) testing of both store back-ends against a sorted-map-per-table model; executor child for RocksDB",
-   text="Generated sequences of mutate/get/range/scan/last/reopen over all tables with adversarial keys are run on BPlusTreeStore (in-process) and RocksDBStore (in a child process so that an abort at close is an observation) and every observation is compared with a map model; a writer/reader pair checks batch atomicity on RocksDB. Exploration.",
+   text="Generated sequences of mutate/get/range/scan/last/reopen over all tables with adversarial keys are run on BPlusTreeStore (in-process) and RocksDBStore (in a child process so that an abort at close is an observation) and every observation is compared with a map model; a writer/reader pair and a SIGKILL/reopen all-or-nothing check decide batch atomicity on RocksDB for batches of 2 to 3001 mutations. Exploration.",
    note="RocksDB 7.8 (Debian build, assertions on) through the /verif/compat shim is the trusted base; bplus concurrency is not generated (no caller uses it concurrently).", ref="§5 C14"),
  "C15": dict(tech="rapid stateful (model-based) testing of the raft log store against a map model, run in an executor child",
    text="Generated sequences of StoreLog/StoreLogs/GetLog/DeleteRange/FirstIndex/LastIndex/Set/Get/SetUint64/GetUint64/reopen with indexes anywhere in uint64 and payloads up to 64 KB are run on the real RocksDB-backed log store (consensus hook) and compared field by field with a map model, again after reopen and a clean process end. Exploration.",
    note="Stable-store values are non-empty and uint64/byte settings use separate keys (as raft does); RocksDB is trusted.", ref="§5 C15"),
  "C05": dict(tech="rapid stateful sequence-model testing at balloon and RaftNode level (restarts, SIGKILL crash points, forced snapshots) with dense-version oracle",
-   text="Generated histories of single/bulk adds interleaved with restarts, crash points, snapshots (and, in the cluster tier, leadership transfers) are run on the real Balloon / RaftNode; the k-th acknowledged event must carry version k-1, bulks consecutive versions in request order, each snapshot its own event digest, and proofs CurrentVersion = accepted-1. Exploration.",
+   text="Generated histories of single/bulk adds interleaved with restarts, crash points, snapshots (and, in the cluster tier, leadership transfers) are run on the real Balloon / RaftNode; the k-th acknowledged event must carry version k-1, bulks consecutive versions in request order, each snapshot its own event digest, and proofs CurrentVersion = accepted-1; a further unit runs 2-16 clients at once against one node and requires every acknowledgement to bind its own events and the versions to be exactly 0..N-1 once. Exploration.",
    note="Failures that belong to other properties (node death, digests) make a case inconclusive here, not a violation.", ref="§5 C05"),
  "C07": dict(tech="fault injection: enumeration of every crash point (before/after each store write) of rapid-generated workloads, SIGKILL + restart, prefix/exactly-once oracle vs reference model",
-   text="For each generated workload every apply x {before, after the store write} is crashed by SIGKILL through a wrapper around the real RocksDB store, the node is restarted and must reach exactly acknowledged+in-flight events, continue with reference-equal snapshots and keep every pre-crash snapshot verifiable. Exhaustive over the crash points of each generated workload; workloads are sampled.",
+   text="For each generated workload every apply x {before, after the store write} is crashed by SIGKILL through a wrapper around the real RocksDB store, the node is restarted and must reach exactly acknowledged+in-flight events, continue with reference-equal snapshots and keep every pre-crash snapshot verifiable. Exhaustive over the crash points of each generated workload; workloads are sampled. A second unit kills a node at wall-clock instants of a running stream (half of the streams start with a bulk above 1000 events) with an oracle that does not depend on where the kill landed.",
    note="SIGKILL keeps the page cache (no torn writes); crash inside RocksDB's own write is not placeable; single node.", ref="§5 C07"),
  "C08": dict(tech="rapid histories x stop points; metamorphic oracle (restarted node == reference model of the uninterrupted run) + process-exit observation in a child",
-   text="Generated workloads are run with clean stop/restart at every / one / some stop points on RocksDB (child processes: Close must return, exit status 0, no abort) and on bplus (re-constructed Balloon); all later snapshots must equal the reference of the uninterrupted sequence and proofs of pre-stop events verify against pre-stop snapshots. Exploration.",
+   text="Generated workloads are run with clean stop/restart at every / one / some stop points on RocksDB (child processes: Close must return, exit status 0, no abort) and on bplus (re-constructed Balloon); all later snapshots must equal the reference of the uninterrupted sequence and proofs of pre-stop events verify against pre-stop snapshots; a cluster unit stops a follower again while it is still applying the backlog it missed (Close must return within 60 s, afterwards the replica must equal the others). Exploration.",
    note="Debian librocksdb has assertions on: a leaked iterator at close aborts the child, which is how 'releases every storage resource' is observed. Shutdown liveness = 30 s bound.", ref="§5 C08"),
  "C10": dict(tech="schedule-controlled concurrency testing: rapid-generated query sets against an apply parked by a gating store wrapper, plus race-detector stress of the public API",
    text="The harness owns the schedule the property singles out: an insertion is parked between computing and persisting (gating wrapper around the real RocksDB store, no repo hook), generated queries start concurrently, the write is released, and every answer must be an error or a proof verifying against the snapshots issued for the versions it names; never a panic, hang or mixed state. A second tier runs concurrent adders/queriers in a -race build. Exploration of that interleaving and its neighbours, not of all schedules.",
    note="Only executed schedules are seen by the race detector; event digests are SHA-256 of text, so in-flight and old keys share no long prefix.", ref="§5 C10"),
  "C16": dict(tech="rapid stateful model-based testing of backup / delete / list / restore sequences on a real RaftNode, restored nodes opened in a second child",
-   text="Generated sequences of add/backup/delete/list/restore run on a real single-node RaftNode; listing must equal the model, and a fresh node opened on each restored backup must report the backup's version, prove membership/consistency of exactly the first v+1 events against the originally issued snapshots, deny later events, and give v+1 with reference digests to its first accepted insertion. Exploration; one known finding (F-C16-1) is tolerated by exact signature and probed.",
+   text="Generated sequences of add/backup/delete/list/restore run on a real single-node RaftNode, each step either on the node or through the management API (POST /backup, GET /backups, DELETE /backup?backupID=<12 spellings, 10 of which name no backup>), restores with the real `qed restore` command line in a second child; listing must equal the model, a delete removes exactly the backup it names, and a fresh node opened on each restored backup must report the backup's version, prove membership/consistency of exactly the first v+1 events against the originally issued snapshots, deny later events, and give v+1 with reference digests to its first accepted insertion. A cluster unit takes the backup on a replica that received its state by transfer from the leader. Exploration; one known finding (F-C16-1) is tolerated by exact signature and probed.",
    note="Backups are taken of non-empty logs; restored node uses a fresh raft directory (documented procedure).", ref="§5 C16"),
  "C11": dict(tech="rapid grammar-based request generation over real TCP against a full server in a child process; liveness + follow-up-correctness oracle incl. restart/log replay",
-   text="Generated request sequences (method x route x body grammar x query parameters) hit the API and management ports of a complete server.Server running in a child; every request must get a well-formed HTTP response, the process must stay alive (also 300 ms later: FSM panics are asynchronous), the next valid insertion must get the next dense version with a verifying proof, and the server must restart on its directories (log replay) and serve again. Exploration.",
+   text="Generated request sequences (method x route x body grammar x query parameters) hit the API and management ports of a complete server.Server running in a child; every request must get a well-formed HTTP response, the process must stay alive (also 300 ms later: FSM panics are asynchronous), the next valid insertion must get the next dense version with a verifying proof (so a wedged apply path shows), and the server must restart on its directories (log replay) and serve again. Exploration.",
    note="Requests are sent with net/http (well-formed HTTP framing); an empty log's CurrentVersion 2^64-1 is not asserted against.", ref="§5 C11"),
  "C06": dict(tech="rapid fault-sequence generation on a real 3-node Raft cluster; replica-equality and cross-replica proof oracle at quiescent points",
    text="Generated sequences of adds, follower stop/restart and leadership transfers run on three real RaftNodes (one child process, loopback transport); at each quiescent point all live replicas must have the same applied state and byte-identical tables and each must serve proofs that verify against the snapshots the leaders returned. Exploration of fault sequences; schedules inside raft are whatever the runtime produces.",
    note="No partitions / message loss (no transport hook); convergence is a 60 s bound, two orders above normal.", ref="§5 C06"),
  "C09": dict(tech="rapid fault-sequence generation with forced log compaction on a real 3-node cluster; convergence oracle after state transfer and after later insertions",
    text="Generated histories take a follower down, insert, force snapshots with TrailingLogs=0 on the rest (so the missed entries are gone), bring back the follower and/or a brand-new node, and require C06's oracle to hold after the state transfer and again after more insertions (optionally after leadership transfer / restart of the restored node). Exploration.",
-   note="Compaction is verified to have happened (class 'compacted'); only such cases count as non-trivial. The gap-refusal clause is exercised through the same path (FetchSnapshot validate function); direct FetchSnapshot fuzzing is in thorough when built.", ref="§5 C09"),
+   note="Compaction is verified to have happened (class 'compacted'); only such cases count as non-trivial. The gap-refusal clause is exercised through the same path (FetchSnapshot validate function); a direct unit drives RaftNode.FetchSnapshot with a fake stream and lying parameters (gap rule, broken streams), and one sequence in three SIGKILLs all replicas after the transfer (the transferred state must be durable).", ref="§5 C09"),
  "C17": dict(tech="rapid-generated arrival patterns through the real concurrent sender; multiset-conservation oracle; signature mutation (every field, every signature bit)",
    text="Generated burst/gap arrival patterns are fed to the real server.Sender (1-4 concurrent batchers, shortened flush interval) on a never-started agent; the multiset emitted must equal the multiset fed, batches respect the size bound, every signature verifies, and no single-field or single-bit alteration of a signed snapshot verifies. Exploration; schedules are the runtime's.",
    note="Oracle is schedule-independent (cannot flake); a loss that needs one precise interleaving may be missed. Encode/sign error branches are unreachable from outside.", ref="§5 C17"),
  "C18": dict(tech="rapid redelivery patterns on the real BatchProcessor; real memberlist networks on loopback with TTL / routing oracle; model-based + race-detector testing of Topology",
-   text="Four tiers: generated redelivery multiplicities/orders must create tasks at most once per batch; generated TTLs and roles on real loopback gossip networks must show TTL decreasing per hop, TTL 0 never sent, at most/exactly one peer per role, no self-delivery and terminating dissemination with forwarding on; Topology is checked against a sequential model and under concurrent update/route goroutines with the race detector. Exploration.",
+   text="Four tiers: generated redelivery multiplicities/orders must create AND execute (real SimpleTasksManager) tasks at most once per batch; generated TTLs and roles on real loopback gossip networks must show TTL decreasing per hop, TTL 0 never sent, at most one peer per role, no self-delivery and terminating dissemination with forwarding on; Topology is checked against a sequential model and under concurrent update/route goroutines with the race detector. Exploration.",
    note="Sender identity comes from payload ids (Message.From arrives nil); memberlist is trusted; negative TTLs are not generated.", ref="§5 C18"),
  "C19": dict(tech="rapid tampering operators (gossiped snapshot / store / log answer) against the real agent task factories with a ground-truth verdict computed by the harness; redelivery patterns for the publisher",
-   text="The real auditor, monitor and publisher task factories run against an honest log served by the real API handlers and client; each generated batch carries one alteration or none; the harness computes the ground-truth verdict from the published material: no alert without tampering, an alert whenever that verdict is false; the publisher must forward each distinct signature exactly once under generated redelivery patterns. Exploration.",
+   text="The real auditor, monitor and publisher task factories, wired as `qed agent` wires them to the real RestSnapshotStore and SimpleNotifier (httptest snapshot-store and alerts services; alerts counted at the endpoint), run against an honest log served by the real API handlers and client; each generated batch carries one alteration or none; the harness computes the ground-truth verdict from the published material: no alert without tampering, an alert whenever that verdict is false; the publisher must forward each distinct signature exactly once under generated redelivery patterns. Exploration.",
    note="A fresh client per batch (a failed request marks the only endpoint dead in the client); tasks that cannot fetch their inputs need not alert (statement is about proofs that fail to verify).", ref="§5 C19"),
  "C20": dict(tech="rapid stateful model-based testing of the client topology (hook) + black-box sequences against real API handlers over a scripted cluster",
    text="Tier 1: generated Update/MarkAsDead/MarkAsAlive/read sequences on the client's topology with roles from the model: selections must be alive, permitted, exhaustive and fair. Tier 2: the real HTTPClient with generated options against httptest servers running the real apihttp handlers over a scripted leader/fault state: insertions only reach believed leaders, successful insertions were executed by the leader, reads respect the preference, leader moves are followed via redirect/discovery, calls are bounded in time and requests. Exploration.",
